@@ -27,7 +27,7 @@ ID = "C19"
 QUICK_RUNS = 3000
 CHUNK = 15
 THOROUGH_BUDGET_S = 900
-WATCHDOG = 180.0
+WATCHDOG = 90.0
 LEVEL = "exploration"
 RULE = (
     "one run = words world + outer pack whose FiatVerified strategy (5-60% of the non-atom classes, by seeded hash) supplies an inner "
